@@ -60,6 +60,7 @@ type Contract struct {
 	Notes     []string
 	Lets      []Clause // let name = expr (evaluated in pre-state), Label holds the name
 	Callsites []Clause // callsite <target> [label] expr: must hold whenever the function body calls <target> (Label = label, File/Line; target kept in Target)
+	BodyReq   []Clause // bodyrequires: assumed when the body of an `assumed` contract is checked for its call-site conditions (callers need not establish it)
 	Macros    []Clause // macro name = text: textual abbreviation, expanded in every clause of this contract (evaluated where it is used)
 	Allocates []string // for assumed contracts: component names that may receive fresh objects
 	Bounded   string   // bounded-standin description
@@ -68,7 +69,7 @@ type Contract struct {
 	Reveal    []string // opaque spec functions whose definition this function's proof may use
 }
 
-var kwRe = regexp.MustCompile(`^(axiom|func|props|requires|ensures|lemma|reveal|summary|modifies|loop|decreases|assumed|pure|nosafety|inline|maypanic|note|let|macro|callsite|allocates|bounded-standin|havoc)\b`)
+var kwRe = regexp.MustCompile(`^(axiom|func|props|requires|ensures|lemma|reveal|summary|modifies|loop|decreases|assumed|pure|nosafety|inline|maypanic|note|let|macro|callsite|bodyrequires|allocates|bounded-standin|havoc)\b`)
 var funcRe = regexp.MustCompile(`^func\s+(\([^)]*\)\.)?([A-Za-z0-9_./$#\-]+)\s*\(([^)]*)\)\s*(\(([^)]*)\))?\s*$`)
 
 // parseContractFile reads contracts from a file. pkgPath qualifies
@@ -219,6 +220,9 @@ func parseContractFile(path, pkgPath string) ([]*Contract, []Clause, error) {
 			c := Clause{Label: strings.TrimSpace(rest[:i]), Text: strings.TrimSpace(rest[i+1:]), Line: ln, File: path}
 			cur.Lets = append(cur.Lets, c)
 			lastClause = &cur.Lets[len(cur.Lets)-1]
+		case "bodyrequires":
+			cur.BodyReq = append(cur.BodyReq, mkClause(rest))
+			lastClause = &cur.BodyReq[len(cur.BodyReq)-1]
 		case "callsite":
 			fs := strings.Fields(rest)
 			if len(fs) < 2 {
